@@ -39,9 +39,13 @@ AtomsL == Atoms \cup {Fix(5), ToPull(1, 1), ToPull(3, 0), Buf("next"), Buf("prev
                       Buf("step"), Integ("sum")}
 PullAtoms == {Pass, Fix(1), Fix(2), ToPull(1, 0), ToPush}      \* no push-based adapter behind a pull-only output
 
-ChainsUpTo2(A) == {<<>>} \cup {<<a>> : a \in A} \cup {<<a, b>> : a \in A, b \in A}
+(* a delay adapter (each kind can repeat request times: DelayToPush while the source lags,  *)
+(* DelayToPull during its first n requests, DelayFixed while clamped to the start) between  *)
+(* the consumer and an integration adapter: integration adapters refuse zero-length periods *)
+RepeatBelowInteg(ch) == \E i \in 1..Len(ch), j \in 1..Len(ch) : i < j /\ ch[i].k \in {"topush", "topull", "fixed"} /\ ch[j].k = "integ"
+ChainsUpTo2(A) == {<<>>} \cup {<<a>> : a \in A} \cup {ch \in {<<a, b>> : a \in A, b \in A} : ~RepeatBelowInteg(ch)}
 ChainsUpTo1(A) == {<<>>} \cup {<<a>> : a \in A}
-Chains3(A) == {<<a, b, c>> : a \in A, b \in A, c \in A}
+Chains3(A) == {ch \in {<<a, b, c>> : a \in A, b \in A, c \in A} : ~RepeatBelowInteg(ch)}
 
 Perms2 == {<<1, 2>>, <<2, 1>>}
 Perms3 == {<<1, 2, 3>>, <<3, 2, 1>>, <<2, 3, 1>>}
@@ -58,6 +62,12 @@ Pair(SS, A, Ends) ==
 Pair3(u) ==
   {MkCfg(<<TimeC(sa, 0, FALSE, <<>>), TimeC(sb, 0, FALSE, <<Lk(1, ch)>>)>>, <<2, 1>>, 6, "dag", "pair3") :
      sa \in Steps1, sb \in Steps1, ch \in Chains3(Atoms)}
+
+(* the excluded chains, as a family of their own (known finding C01-repeated-time-at-integration) *)
+RepeatInteg(u) ==
+  {MkCfg(<<TimeC(sa, 0, FALSE, <<>>), TimeC(sb, ob, FALSE, <<Lk(1, <<d, Integ(b)>>)>>)>>, ord, 7, "dag", "repeatinteg") :
+     sa \in {<<2>>, <<5>>, <<5, 3>>}, sb \in {<<1>>, <<3>>, <<3, 1>>}, ob \in {0, 1}, d \in {ToPush, ToPull(2, 0), ToPull(3, 1), Fix(3)},
+     b \in {"avg", "sum"}, ord \in Perms2}
 
 (* chain3: P -> M -> C with M a time component or a pull-based component *)
 Chain3T(u) ==
@@ -246,10 +256,11 @@ CfgSpace(f) ==
     [] f = "wsum"       -> WSum(0)
     [] f = "pulltwice"  -> PullTwice(0)
     [] f = "fanoutshared" -> FanOutShared(0)
+    [] f = "repeatinteg" -> RepeatInteg(0)
     [] f = "ring2tail"  -> Ring2Tail(0)
 
 AllFamilies == {"pair", "pairL", "pairXL", "pair3", "chain3t", "chain3p", "fanin2", "fanin1",
                 "fanout", "pullfanout", "diamondt", "diamondp", "pullchain2", "ring2", "ring3",
-                "ring4", "pullring", "pullringtail", "ringbreak", "wsum", "pulltwice", "ring2tail", "fanoutshared"}
+                "ring4", "pullring", "pullringtail", "ringbreak", "wsum", "pulltwice", "ring2tail", "fanoutshared", "repeatinteg"}
 
 =============================================================================
